@@ -16,7 +16,7 @@ PROPS = {"C18": dict(
                  "nobody else writes to the directory while the tool runs"],
     technique="property-based testing: directory diff against a set oracle computed independently, plus end-to-end audit/client/restart on real directories",
     bins=["cmd/partial-aftersun"],
-    budget={"quick": 600, "thorough": 2400},
+    budget={"quick": 900, "thorough": 5400},
     units=[
         rapid("aftersun", "cmd/partial-aftersun", "^TestVerifC18Synthetic$", 600, 4000),
         rapid("aftersun", "cmd/partial-aftersun", "^TestVerifC18Real$", 60, 150),
